@@ -469,6 +469,12 @@ func c15Body(r *Run) {
 	}
 
 	r.Sim.AtEnd(func() {
+		// nothing can be dispatched to a handler that was never wired to its topic
+		for _, h := range hs {
+			if h.sub.Subscribes[h.topic] == 0 {
+				r.Fail("C15.R2", "a registered handler was never subscribed to its topic", "%s on %s", h.name, h.topic)
+			}
+		}
 		// per subscription: which handlers share it (groups) in registration order
 		seenSub := map[*ScriptedSubscriber]bool{}
 		for _, h := range hs {
